@@ -11,7 +11,17 @@ namespace RaftModel.P
 def Event.cfgOk (c0 : Cfg) : Event → Prop
   | .win _ cfg _ => cfg = c0
   | .commitLeader _ _ cfg _ => cfg = c0
+  | .read (.resp _ _ _ cfg) => cfg = c0
+  | .read (.rstate _ _ _ cfg) => cfg = c0
   | _ => True
+
+/-- a read-index event changes the read bookkeeping only -/
+theorem read_frame {s s' : PSys} {r : REvent} (h : applyEvent s (.read r) = .ok s') :
+    ∃ rd, s' = { s with rd := rd } := by
+  simp only [applyEvent, ok] at h
+  split at h
+  · rename_i rd _; cases h; exact ⟨rd, rfl⟩
+  · cases h
 
 /-- reachable states of P under a fixed configuration -/
 inductive ReachC (c0 : Cfg) : PSys → Prop where
@@ -25,8 +35,8 @@ theorem vsys_nodes (s : PSys) (i : Nat) (n : PNode) (g : List Grant) (el : List 
 
 theorem vsys_mk (f : Nat → PNode) (i : Nat) (n : PNode) (r : List VoteReq) (g : List Grant) (a : List Ack)
     (ap : List App) (hb : List HB) (sn : List Snap) (cl : List Claim) (ll : Nat → List LEntry)
-    (el : List (Nat × Nat)) (eg : Nat → List LEntry) (rg : List (Grant × VGhost)) (cm : List (Nat × Nat)) :
-    vsys ⟨upd f i n, r, g, a, ap, hb, sn, cl, ll, el, eg, rg, cm⟩ =
+    (el : List (Nat × Nat)) (eg : Nat → List LEntry) (rg : List (Grant × VGhost)) (cm : List (Nat × Nat)) (rd : RdState) :
+    vsys ⟨upd f i n, r, g, a, ap, hb, sn, cl, ll, el, eg, rg, cm, rd⟩ =
       { nodes := updV (fun j => vproj (f j)) i (vproj n), grants := g, elected := el } := by
   simp only [vsys, vproj_upd]
 
@@ -34,9 +44,9 @@ theorem vsys_mk' (s : PSys) : (vsys s) = { nodes := fun j => vproj (s.nodes j), 
 
 theorem vsys_mk_same (s : PSys) (i : Nat) (n : PNode) (r : List VoteReq) (a : List Ack)
     (ap : List App) (hb : List HB) (sn : List Snap) (cl : List Claim) (ll : Nat → List LEntry)
-    (eg : Nat → List LEntry) (rg : List (Grant × VGhost)) (cm : List (Nat × Nat))
+    (eg : Nat → List LEntry) (rg : List (Grant × VGhost)) (cm : List (Nat × Nat)) (rd : RdState)
     (hp : vproj n = vproj (s.nodes i)) :
-    vsys ⟨upd s.nodes i n, r, s.grants, a, ap, hb, sn, cl, ll, s.elected, eg, rg, cm⟩ = vsys s := by
+    vsys ⟨upd s.nodes i n, r, s.grants, a, ap, hb, sn, cl, ll, s.elected, eg, rg, cm, rd⟩ = vsys s := by
   rw [vsys_mk, hp]
   simp only [vsys]
   congr
@@ -251,6 +261,11 @@ theorem invV_step (c0 : Cfg) (s s' : PSys) (e : Event) (hc : e.cfgOk c0)
       rw [this]
       exact invV_restart hI i
     · cases h
+  | read r =>
+    simp only [applyEvent, ok] at h
+    split at h
+    · cases h; exact invV_of_eq hI rfl
+    · cases h
   | win i cfg q =>
     simp only [applyEvent, ok] at h
     split at h
@@ -279,7 +294,7 @@ theorem invV_step (c0 : Cfg) (s s' : PSys) (e : Event) (hc : e.cfgOk c0)
     simp only [applyEvent, ok] at h
     split at h
     · cases h
-      exact invV_of_eq hI (vsys_mk_same s i _ _ _ _ _ _ _ _ _ _ _ rfl)
+      exact invV_of_eq hI (vsys_mk_same s i _ _ _ _ _ _ _ _ _ _ _ _ rfl)
     · cases h
   | sendApp i m =>
     simp only [applyEvent, ok] at h
@@ -317,25 +332,25 @@ theorem invV_step (c0 : Cfg) (s s' : PSys) (e : Event) (hc : e.cfgOk c0)
     simp only [applyEvent, ok] at h
     split at h
     · cases h
-      exact invV_of_eq hI (vsys_mk_same s i _ _ _ _ _ _ _ _ _ _ _ rfl)
+      exact invV_of_eq hI (vsys_mk_same s i _ _ _ _ _ _ _ _ _ _ _ _ rfl)
     · cases h
   | commitApp i c m =>
     simp only [applyEvent, ok] at h
     split at h
     · cases h
-      exact invV_of_eq hI (vsys_mk_same s i _ _ _ _ _ _ _ _ _ _ _ rfl)
+      exact invV_of_eq hI (vsys_mk_same s i _ _ _ _ _ _ _ _ _ _ _ _ rfl)
     · cases h
   | commitHB i c m =>
     simp only [applyEvent, ok] at h
     split at h
     · cases h
-      exact invV_of_eq hI (vsys_mk_same s i _ _ _ _ _ _ _ _ _ _ _ rfl)
+      exact invV_of_eq hI (vsys_mk_same s i _ _ _ _ _ _ _ _ _ _ _ _ rfl)
     · cases h
   | commitClaim i m =>
     simp only [applyEvent, ok] at h
     split at h
     · cases h
-      exact invV_of_eq hI (vsys_mk_same s i _ _ _ _ _ _ _ _ _ _ _ rfl)
+      exact invV_of_eq hI (vsys_mk_same s i _ _ _ _ _ _ _ _ _ _ _ _ rfl)
     · cases h
   | sendHB i to c =>
     simp only [applyEvent, ok] at h
@@ -371,7 +386,7 @@ theorem invV_step (c0 : Cfg) (s s' : PSys) (e : Event) (hc : e.cfgOk c0)
     split at h
     · split at h
       · cases h
-        exact invV_of_eq hI (vsys_mk_same s i _ _ _ _ _ _ _ _ _ _ _ rfl)
+        exact invV_of_eq hI (vsys_mk_same s i _ _ _ _ _ _ _ _ _ _ _ _ rfl)
       · cases h
     · cases h
   | bootstrap i donor idx =>
